@@ -38,7 +38,7 @@ func init() {
 			return []string{"release", "386"}
 		},
 		Exhaustive: nil,
-		Required:   []string{"cold-start/all-ones-path-first", "field/l=0", "field/l=h", "field/h=32", "field/h=0", "order/ancestor-descendant", "order/left-right-subtrees", "order/equal", "order/h>=13", "pathstr/retained-results-reread"},
+		Required:   []string{"cold-start/all-ones-path-first", "field/l=0", "field/l=h", "field/h=32", "field/h=0", "order/ancestor-descendant", "order/left-right-subtrees", "order/equal", "order/h>=13", "pathstr/retained-results-reread", "field/relatives-in-consecutive-calls"},
 		Families: func(c *mon.Config) []mon.Family {
 			hp := c.Pick(8, 12)
 			return []mon.Family{
@@ -170,6 +170,30 @@ func c10FieldsLarge(w *mon.W, idx int) {
 		if _, ok := c10CheckFields(w, h, l, pf); !ok {
 			return
 		}
+		// the node's relatives in the calls that directly follow: sibling, parent, both children, and the same
+		// prefix in the neighbouring heights (state carried from one call to the next, or a key that does not tell
+		// two relatives apart, shows between neighbours)
+		if l >= 1 {
+			if _, ok := c10CheckFields(w, h, l, pf^1); !ok {
+				return
+			}
+			if _, ok := c10CheckFields(w, h, l-1, pf>>1); !ok {
+				return
+			}
+			w.Bucket("field/relatives-in-consecutive-calls")
+		}
+		if l < h {
+			for b := uint64(0); b < 2; b++ {
+				if _, ok := c10CheckFields(w, h, l+1, pf<<1|b); !ok {
+					return
+				}
+			}
+		}
+		if h < 32 {
+			if _, ok := c10CheckFields(w, h+1, l, pf); !ok {
+				return
+			}
+		}
 		if l >= 1 {
 			w.Distinct(gen.Hash64(uint64(h), uint64(l), pf))
 		}
@@ -285,10 +309,13 @@ func c10OrderSampled(w *mon.W, idx int) {
 // c10Cold is the very first thing the process does: the accessors are called on the path words that
 // look like typical "nothing yet" sentinels (all ones, zero) before anything else has been rendered.
 func c10Cold(w *mon.W, _ int) {
-	for _, c := range []struct {
+	list := []struct {
 		h, l   int
 		prefix uint64
-	}{{32, 32, 0xffffffff}, {0, 0, 0}, {32, 0, 0}, {32, 32, 0}, {1, 1, 1}, {31, 31, 0x7fffffff}} {
+	}{{32, 32, 0xffffffff}, {0, 0, 0}, {32, 0, 0}, {32, 32, 0}, {1, 1, 1}, {31, 31, 0x7fffffff}, {8, 8, 0xaa}, {9, 3, 5}}
+	rot := w.Cfg.ColdRotation() // which word is rendered first in this process
+	for k := range list {
+		c := list[(k+rot)%len(list)]
 		if _, ok := c10CheckFields(w, c.h, c.l, c.prefix); !ok {
 			return
 		}
